@@ -82,10 +82,16 @@ impl Bucket {
         // See if any lower priority nodes are present in the table, we cant do
         // nodes that have equal status because we have to prefer longer lasting
         // nodes in the case of a good status which helps with stability.
+        // Prefer a free (bad) slot so that a live node is never evicted while there is still room.
         let replace_index = self
             .nodes
             .iter()
-            .position(|node| node.status() < new_node_status);
+            .position(|node| node.status() == NodeStatus::Bad)
+            .or_else(|| {
+                self.nodes
+                    .iter()
+                    .position(|node| node.status() < new_node_status)
+            });
         if let Some(index) = replace_index {
             self.nodes[index] = new_node;
 
